@@ -148,6 +148,8 @@ pub enum CloseBehaviour {
     CloseOkThenEof,
     /// never answer
     Silent,
+    /// CloseOk after this much virtual time (ns)
+    Delayed(u64),
 }
 
 pub struct StdBroker {
@@ -501,6 +503,11 @@ impl StdBroker {
                             out.eof = true;
                         }
                         CloseBehaviour::Silent => {}
+                        CloseBehaviour::Delayed(ns) => {
+                            let at = amiquip::verif::clock::now_ns() + ns;
+                            let b = frame_bytes(&AMQPFrame::Method(0, AMQPClass::Connection(connection::AMQPMethod::CloseOk(connection::CloseOk {}))));
+                            self.timed.push_back((at, b));
+                        }
                     }
                 }
                 AMQPFrame::Method(0, AMQPClass::Connection(connection::AMQPMethod::CloseOk(_))) => {
